@@ -335,8 +335,9 @@ class kMinPathError(pathmodel.AbstractPathModelDAG):
         # path slacks
         # A slack that is scaled down by a path-length factor < 1 must be able to grow accordingly
         slack_ub = self.w_max
-        if len(self.path_length_factors) > 0 and 0 < min(self.path_length_factors) < 1:
-            slack_ub = self.weight_type(math.ceil(self.w_max / min(self.path_length_factors)))
+        positive_factors = [factor for factor in self.path_length_factors if factor > 0]
+        if len(positive_factors) > 0 and min(positive_factors) < 1:
+            slack_ub = self.weight_type(math.ceil(self.w_max / min(positive_factors)))
         self.path_slacks_vars = self.solver.add_variables(
             self.path_indexes,
             name_prefix="slack",
@@ -488,8 +489,9 @@ class kMinPathError(pathmodel.AbstractPathModelDAG):
         # path slacks
         # A slack that is scaled down by a path-length factor < 1 must be able to grow accordingly
         slack_ub = self.w_max
-        if len(self.path_length_factors) > 0 and 0 < min(self.path_length_factors) < 1:
-            slack_ub = self.weight_type(math.ceil(self.w_max / min(self.path_length_factors)))
+        positive_factors = [factor for factor in self.path_length_factors if factor > 0]
+        if len(positive_factors) > 0 and min(positive_factors) < 1:
+            slack_ub = self.weight_type(math.ceil(self.w_max / min(positive_factors)))
         self.path_slacks_vars = self.solver.add_variables(
             self.path_indexes,
             name_prefix="slack",
